@@ -83,15 +83,15 @@ PROPS = {
     'C12': {
         'explanation': 'Clause decided: dedup gate of List::apply (both op variants), absorption of the op dot, fresh-dot tagging of '
                        'insert_index/delete_index and agreement of Op::dot() with the identifier marker, and the identifier comparison table.',
-        'decides': 'GATE(list), ABSORB(list), LIST-TAG, VC-INC, ID-CMP, ID-MARKER',
+        'decides': 'GATE(list), ABSORB(list), LIST-TAG, LIST-APPLY, VC-INC, ID-CMP, ID-MARKER, ID-BETWEEN',
         'not_decided': 'that positions are consistent across replicas (depends on the values Identifier::between produces)',
     },
     'C14': {
         'explanation': 'Clause decided: the decision table of Identifier::cmp over (self has node, other has node, node ordering): Equal for two '
                        'exhausted paths, antisymmetric prefix rule, node ordering decides with the right orientation, equal nodes continue; '
                        'partial_cmp == Some(cmp).',
-        'decides': 'ID-CMP, ID-PCMP, ID-MARKER (every identifier between() builds ends with the caller\'s marker)',
-        'not_decided': 'density of between() (midpoint arithmetic and path walk are value-level)',
+        'decides': 'ID-CMP, ID-PCMP, ID-MARKER (every identifier between() builds ends with the caller\'s marker), ID-BETWEEN (sibling shortcut only for l_m < marker < h_m; one-bound position from the first node)',
+        'not_decided': 'density of between() as a whole (the midpoint arithmetic is value-level); two structural clauses of it are decided',
     },
     'C15': {
         'explanation': 'Clause decided: MerkleReg gate, dag/orphan routing by "all children in dag", orphan re-examination after a node becomes '
@@ -133,7 +133,7 @@ PROPS = {
         'explanation': 'Clause decided: no residue is stored: no empty witness survives a remove, a merge or a reset (RM/prune, MERGE-COMMON/prune, '
                        'MERGE-DROP, RR-PRUNE), a covered remove is never stored as pending (DEF-DECIDE may), covered pending removes disappear '
                        'at re-examination (DEF-TAKE, DEF-REEXAM).',
-        'decides': 'RM(prune), MERGE-COMMON(prune), MERGE-DROP, RR-PRUNE, DEF-DECIDE(may), DEF-TAKE, DEF-REEXAM',
+        'decides': 'RM(prune), MERGE-COMMON(prune), MERGE-DROP, RR-PRUNE, DEF-DECIDE(may), DEF-TAKE, DEF-REEXAM, MV-EQ',
         'not_decided': 'structural equality of replicas with equal knowledge (fails today for Map<_, MVReg>; no structural signature)',
     },
 }
